@@ -122,7 +122,7 @@ Fixpoint mnext_line (ls : list line) : option tk * list line :=
 (* mps_skip_comment: skips blanks; true = the rest of the line is a comment *)
 Definition skipc (t : tk) : tk * bool :=
   let c := Lex.skip_blanks (t_cur t) in
-  (tk_cur t c, match c with "$"%char :: _ => (2 <=? t_fnum t)%nat | _ => false end).
+  (tk_cur t c, match c with x :: _ => Ascii.eqb x "$" && (2 <=? t_fnum t)%nat | [] => false end).
 
 (* ILLmps_next_field: true = a field was read (the C function returns 0) *)
 Definition mnext_field (t : tk) : tk * bool :=
@@ -166,11 +166,8 @@ Section Reader.
     if com then DNone t1
     else
       let c := t_cur t1 in
-      let '(neg, len0) := match c with
-                          | "-"%char :: _ => (true, 1%nat)
-                          | "+"%char :: _ => (false, 1%nat)
-                          | _ => (false, 0%nat)
-                          end in
+      let neg := match c with x :: _ => Ascii.eqb x "-" | [] => false end in
+      let len0 := match c with x :: _ => if Ascii.eqb x "-" || Ascii.eqb x "+" then 1%nat else 0%nat | [] => 0%nat end in
       let c1 := skipn len0 c in
       let len := if iprefix (s2l "INFINITY") c1 then (len0 + 8)%nat else if iprefix (s2l "INF") c1 then (len0 + 3)%nat else len0 in
       if (1 <? len)%nat then
